@@ -12,6 +12,7 @@ import (
 	"pgregory.net/rapid"
 
 	"verif/harness/core"
+	"verif/harness/xref"
 )
 
 // ---- C09: profile subject constraints are enforced, and only those
@@ -33,14 +34,36 @@ const (
 // embeds decides by exhaustive search whether subject (written order) is an
 // in-order selection of list entries that leaves out optional entries only.
 func embeds(subject []string, attrs []string, optional []bool) bool {
+	// ok[i][j]: subject[i:] is such a selection of attrs[j:] (filled from the back)
+	ns, na := len(subject), len(attrs)
+	ok := make([][]bool, ns+1)
+	for i := range ok {
+		ok[i] = make([]bool, na+1)
+	}
+	ok[ns][na] = true
+	for j := na - 1; j >= 0; j-- {
+		for i := ns; i >= 0; i-- {
+			// either the list entry is used for the next subject item, or it is skipped (only if optional)
+			if i < ns && subject[i] == attrs[j] && ok[i+1][j+1] {
+				ok[i][j] = true
+			} else if optional[j] && ok[i][j+1] {
+				ok[i][j] = true
+			}
+		}
+	}
+	return ok[0][0]
+}
+
+// embedsSearch is the same relation decided by plain exhaustive search; the exhaustive part of the
+// check compares the two on every pair, so that the table above cannot be wrong unnoticed.
+func embedsSearch(subject []string, attrs []string, optional []bool) bool {
 	if len(attrs) == 0 {
 		return len(subject) == 0
 	}
-	// either the first list entry is used for the first subject item, or it is skipped (only if optional)
-	if len(subject) > 0 && subject[0] == attrs[0] && embeds(subject[1:], attrs[1:], optional[1:]) {
+	if len(subject) > 0 && subject[0] == attrs[0] && embedsSearch(subject[1:], attrs[1:], optional[1:]) {
 		return true
 	}
-	return optional[0] && embeds(subject, attrs[1:], optional[1:])
+	return optional[0] && embedsSearch(subject, attrs[1:], optional[1:])
 }
 
 func c09Oracle(c c09Case) int {
@@ -134,13 +157,55 @@ func checkC09(c c09Case) *core.Failure {
 // ---- end to end: a rejected certificate stops the run before anything is generated
 
 type c09E2E struct {
-	W World
+	W      World
+	Exotic bool `json:",omitempty"` // some subject uses syntax beyond plain KEY=value pairs (such a config may be refused as a whole)
+}
+
+// issuedViolates judges an issued certificate by the attribute types actually in it (decoded by the
+// harness, whatever the configuration text looked like): under allowOther=false every type must be
+// on the list, under any setting every non-optional entry must be present, and when all RDNs are
+// single-valued the full embedding oracle applies.
+func issuedViolates(cc c09Case, subj xref.Name) (bool, []string) {
+	if cc.NilList {
+		return false, nil
+	}
+	var types []string
+	single := true
+	for i := len(subj.RDNs) - 1; i >= 0; i-- { // written order is the reverse of the encoded one
+		if len(subj.RDNs[i]) != 1 {
+			single = false
+		}
+		for _, a := range subj.RDNs[i] {
+			types = append(types, a.OID)
+		}
+	}
+	cc.Subject = types
+	if single {
+		return c09Oracle(cc) == mustReject, types
+	}
+	var listed []string
+	for _, a := range cc.Attrs {
+		listed = append(listed, keyOID(a))
+	}
+	for i, a := range listed {
+		if !cc.Optional[i] && !inList(a, types) {
+			return true, types
+		}
+	}
+	if !cc.AllowOther {
+		for _, ty := range types {
+			if !inList(ty, listed) {
+				return true, types
+			}
+		}
+	}
+	return false, types
 }
 
 func TestC09(t *testing.T) {
 	r := core.Start(t, "C09")
 	defer r.Finish()
-	r.Rule = "(a) exhaustive at API level: profile attribute lists of length 0..3 (quick) / 0..4 (thorough) over {C,O,2.5.4.10 (= O as dotted OID),CN,1.2.3.4} with duplicates x optional flags x allowOther, plus the nil list; subjects of length 1..4 / 1..5 over the same alphabet plus foreign {L, 2.5.4.99}; every pair is fed to config.Validate and compared with a three-valued oracle (exhaustive embedding search; UNSPECIFIED only for order among listed types under allowOther). (b) end to end through YAML with the schema's attribute names: a rejecting profile must make the run fail with the directory unchanged, an accepting one must generate. Non-trivial = MUST-accept or MUST-reject case with a non-empty list; distinct by the pair."
+	r.Rule = "(a) exhaustive at API level: profile attribute lists of length 0..3 (quick) / 0..4 (thorough) over {C,O,2.5.4.10 (= O as dotted OID),CN,1.2.3.4} with duplicates x optional flags x allowOther, plus the nil list; subjects of length 1..4 / 1..5 over the same alphabet plus foreign {L, 2.5.4.99}; every pair is fed to config.Validate and compared with a three-valued oracle (exhaustive embedding search; UNSPECIFIED only for order among listed types under allowOther). (a2) generated at API level: lists of 5-70 entries over the 13 schema names, dotted spellings and custom OIDs with subjects built around an embedding (required entries dropped, foreign types inserted, neighbours swapped), same oracle with the embedding decided by a table that the enumeration cross-checks against plain search. (b) end to end through YAML with the schema's attribute names: a rejecting profile must make the run fail with the directory unchanged, an accepting one must generate; one entity in six writes syntax beyond plain pairs into a subject component ('+O=Acme', escaped separators, …), for which only the output is judged: every certificate present after a run is decoded by the harness and the attribute types actually in it must not be ones its profile must reject. Non-trivial = MUST-accept or MUST-reject case with a non-empty list; distinct by the pair."
 	r.Assumptions = []string{"under allowOther the order among listed attributes is not stated by the property: such cases are counted as unspecified and never fail"}
 	var unspec int
 	wrap := func(c c09Case) *core.Failure {
@@ -173,6 +238,13 @@ func TestC09(t *testing.T) {
 				cc.Attrs = append(cc.Attrs, a.Attribute)
 				cc.Optional = append(cc.Optional, a.Optional != nil && *a.Optional)
 			}
+			// whatever was written: a certificate that exists now must satisfy its profile
+			if dec, err := readEntity(d, e); err == nil && dec.Cert != nil {
+				if bad, types := issuedViolates(cc, dec.Cert.Subject); bad {
+					return core.Failf("C09/issued-certificate-violates-profile", "%s was issued with subject attribute types %v (written order), which profile %q (attrs=%v optional=%v allowOther=%v) must reject\n%v",
+						e.File, types, p.Name, cc.Attrs, cc.Optional, cc.AllowOther, w.Texts())
+				}
+			}
 			for _, rd := range e.Subject {
 				cc.Subject = append(cc.Subject, rd.Key)
 			}
@@ -185,16 +257,22 @@ func TestC09(t *testing.T) {
 		}
 		cls := "accept"
 		switch {
+		case c.Exotic:
+			// the written pairs do not tell what the subject is (or whether it is one): only the issued certificates are judged
+			cls = "exotic-subject-syntax"
 		case anyReject:
 			cls = "reject"
 		case anyUnspec:
 			cls = "unspecified"
 		}
 		key := ""
-		if cls != "unspecified" {
+		if cls != "unspecified" && (!c.Exotic || res.Generated > 0) {
 			key = fmt.Sprint(w.Texts())
 		}
 		r.Case(key, "e2e:"+cls)
+		if c.Exotic && res.Generated > 0 {
+			r.Classes["e2e:exotic-subject-syntax-something-issued"]++
+		}
 		r.Sample("e2e:"+cls, w.Texts())
 		switch cls {
 		case "reject":
@@ -249,7 +327,39 @@ func TestC09(t *testing.T) {
 		}
 		return nil
 	}
+	long := func(c c09Case) *core.Failure {
+		o := c09Oracle(c)
+		key := ""
+		if o != unspecified {
+			key = fmt.Sprintf("%+v", c)
+		} else {
+			unspec++
+		}
+		cls := []string{fmt.Sprintf("long-list:len>%d", (len(c.Attrs)-1)/8*8), []string{"long-list:unspecified", "long-list:must-accept", "long-list:must-reject"}[o]}
+		if o == mustReject && c.AllowOther {
+			first := -1
+			for i, a := range c.Attrs {
+				if !c.Optional[i] && !inList(keyOID(a), func() []string {
+					var l []string
+					for _, x := range c.Subject {
+						l = append(l, keyOID(x))
+					}
+					return l
+				}()) {
+					first = i
+					break
+				}
+			}
+			if first >= 16 {
+				cls = append(cls, "long-list:only-missing-required-beyond-16th")
+			}
+		}
+		r.Case(key, cls...)
+		r.Sample(cls[1], c)
+		return checkC09(c)
+	}
 	core.Register(r, "validate", wrap)
+	core.Register(r, "validate-long", long)
 	core.Register(r, "e2e", e2e)
 	if r.Replays() {
 		return
@@ -280,6 +390,9 @@ func TestC09(t *testing.T) {
 		}
 		for _, s := range subjects {
 			c.Subject = s
+			if embeds(s, c.Attrs, c.Optional) != embedsSearch(s, c.Attrs, c.Optional) {
+				panic(fmt.Sprintf("harness: embedding table and search disagree on %+v", c))
+			}
 			if f := wrap(c); f != nil {
 				if r.Report("validate", c, f) {
 					stop = true
@@ -320,6 +433,48 @@ func TestC09(t *testing.T) {
 	}
 	r.Extra["unspecified_cases"] = unspec
 	r.Extra["exhaustive_part"] = "config.Validate over all profile x subject pairs within the stated bounds; the end-to-end part is sampled"
+
+	// long lists: far beyond the enumerated bounds, built around an embedding so that all three verdicts occur
+	longAlpha := append(append([]string{}, profAttrNames...), "2.5.4.10", "2.5.4.3", "1.2.3.4", "1.2.3.5", "1.2.3.4.5", "2.5.4.99", "0.9.2342.19200300.100.1.25")
+	genLong := func(t *rapid.T) c09Case {
+		c := c09Case{AllowOther: rapid.Bool().Draw(t, "allowOther")}
+		n := rapid.SampledFrom([]int{5, 8, 9, 15, 16, 17, 18, 24, 31, 32, 33, 40, 63, 64, 65, 70}).Draw(t, "len")
+		reqEvery := rapid.SampledFrom([]int{0, 0, 2, 5, 100}).Draw(t, "required-density")
+		for i := 0; i < n; i++ {
+			c.Attrs = append(c.Attrs, rapid.SampledFrom(longAlpha).Draw(t, fmt.Sprintf("a%d", i)))
+			opt := true
+			if reqEvery > 0 {
+				opt = rapid.IntRange(0, reqEvery).Draw(t, fmt.Sprintf("o%d", i)) != 0
+			}
+			c.Optional = append(c.Optional, opt)
+		}
+		if rapid.Bool().Draw(t, "last-required") {
+			// a single required entry at the far end of an otherwise optional tail
+			c.Optional[n-1] = false
+		}
+		dropRequired := rapid.IntRange(0, 2).Draw(t, "drop-required") == 0
+		dropped := false
+		for i := 0; i < n; i++ {
+			switch {
+			case !c.Optional[i] && dropRequired && !dropped && (i == n-1 || rapid.IntRange(0, 3).Draw(t, fmt.Sprintf("d%d", i)) == 0):
+				dropped = true
+			case !c.Optional[i], rapid.IntRange(0, 3).Draw(t, fmt.Sprintf("k%d", i)) == 0:
+				c.Subject = append(c.Subject, c.Attrs[i])
+			}
+			if rapid.IntRange(0, 15).Draw(t, fmt.Sprintf("f%d", i)) == 0 {
+				c.Subject = append(c.Subject, rapid.SampledFrom([]string{"2.5.4.98", "1.2.3.6", "1.2.3.4"}).Draw(t, fmt.Sprintf("fo%d", i)))
+			}
+		}
+		if len(c.Subject) >= 2 && rapid.IntRange(0, 5).Draw(t, "swap") == 0 {
+			i := rapid.IntRange(0, len(c.Subject)-2).Draw(t, "swap-at")
+			c.Subject[i], c.Subject[i+1] = c.Subject[i+1], c.Subject[i]
+		}
+		if len(c.Subject) == 0 {
+			c.Subject = []string{c.Attrs[0]}
+		}
+		return c
+	}
+	core.Rapid(r, "validate-long", r.Pick(4000, 200000), genLong, long)
 
 	gen := func(t *rapid.T) c09E2E {
 		var c c09E2E
@@ -379,6 +534,12 @@ func TestC09(t *testing.T) {
 				}
 			}
 			c.W.Profs = append(c.W.Profs, p)
+			if rapid.IntRange(0, 5).Draw(t, l+"-exotic") == 0 {
+				// syntax beyond plain pairs inside one comma-separated component
+				j := rapid.IntRange(0, len(subj)-1).Draw(t, l+"-exotic-at")
+				subj[j].Value += rapid.SampledFrom([]string{"+O=Acme", "+2.5.4.99=x", " + OU=x", "+L=here+ST=there", "\\+O=Acme", "+O", "+", "\\,O=Acme", ";O=Acme", "/O=Acme", "+CN=second"}).Draw(t, l+"-exotic-suffix")
+				c.Exotic = true
+			}
 			e := core.Entity{File: fmt.Sprintf("e%d.yaml", i), Subject: subj, Profile: p.Name}
 			if i > 0 && rapid.Bool().Draw(t, l+"-child") {
 				e.Issuer = "e0"
